@@ -175,3 +175,35 @@ func init() {
 		return "ok"
 	})
 }
+
+func init() {
+	// C09: a future STARTED INSIDE an update function of swap! on atom X lives on after that swap! is over (its context
+	// derives from the evaluation's); its own later swap! / reset! / deref of X are ordinary operations: applied, not lost,
+	// not rejected
+	addWitness("future-started-in-update-function-can-swap", "a", func(iters int) string {
+		w, err := newConcWorld()
+		if err != nil {
+			return "setup-error"
+		}
+		o := evalW(w, `(do (def reg (atom {:jobs 0 :done 0}))
+		                   (def worker (atom nil))
+		                   (swap! reg (fn [m] (do (reset! worker (future (do (sleep 40) (swap! reg update :done inc) (swap! reg update :done inc) :finished))) (assoc m :jobs 1))))
+		                   [(deref (deref worker)) (deref reg)])`)
+		if o == "BLOCKED" {
+			return "BLOCKED\t!an evaluation whose update function started a future that later swaps the same atom never returned"
+		}
+		want := "ok ( V Sca9e66696e6973686564 ( M Sca9e646f6e65 I2 Sca9e6a6f6273 I1 ) )"
+		if o != want {
+			return o + "\t!a future started inside an update function of swap! later swapped the same atom: its updates must be applied ([:finished {:jobs 1 :done 2}])"
+		}
+		o2 := evalW(w, `(do (def c (atom 0))
+		                    (def fs (atom []))
+		                    (swap! c (fn [x] (do (swap! fs conj (future (do (sleep 20) (swap! c inc)))) (swap! fs conj (future (do (sleep 25) (reset! c (+ (deref c) 10))))) (+ x 1))))
+		                    (map deref (deref fs))
+		                    (deref c))`)
+		if o2 != "ok I12" {
+			return o2 + "\t!futures started inside an update function swapped / reset the same atom afterwards: expected the counter to read 12"
+		}
+		return "ok"
+	})
+}
